@@ -543,6 +543,77 @@ def observe_warnings(action, make):
     return res, shown
 
 
+SESSION_CHILD = r'''
+import json, sys, warnings
+steps = json.load(open(sys.argv[1]))
+from mako.template import Template
+from mako import exceptions
+shown = []
+def base(m, c, f, l, file=None, line=None):
+    shown.append([f, l])
+warnings.showwarning = base          # what the process "had before"; never wrapped in catch_warnings, which would restore it
+out = []
+for st in steps:
+    warnings.resetwarnings()
+    warnings.simplefilter(st["action"])
+    getattr(warnings, "onceregistry", {}).clear()
+    del shown[:]
+    try:
+        Template(st["text"], uri=st["uri"])
+        res = "ok"
+    except (exceptions.SyntaxException, exceptions.CompileException):
+        res = "mako-syntax-exception"
+    except ValueError:
+        res = "module-code-exception"
+    except Exception as e:
+        res = "raw:" + type(e).__name__
+    out.append({"res": res, "shown": list(shown), "restored": warnings.showwarning is base})
+print("RESULT " + json.dumps(out))
+'''
+
+
+def session_steps(kinds):
+    """Concrete compiles of one WarnSession.tla session: every step has its own number of leading lines and uri."""
+    steps = []
+    for k, kind in enumerate(kinds):
+        lead = "filler %d\n" % k * (k + 1)
+        text = {"ok": lead + "plain\n", "fails-at-lex": lead + "${ = = }\n", "fails-in-module-code": lead + "<%!\n  raise ValueError('mc')\n%>\nx\n",
+                "warns-once": lead + "${ '\\d' }\n", "warns-under-error": lead + "${ '\\d' }\n"}[kind]
+        steps.append({"kind": kind, "text": text, "uri": "/s%d.html" % k, "action": "error" if kind == "warns-under-error" else "always", "home": k + 2})
+    return steps
+
+
+def run_sessions(run, sessions, parallel=8):
+    """Each session in a fresh child process; returns [(session, steps, observed list or error string)]."""
+    import json as _json
+    import subprocess
+    import sys
+    d = run.subdir("sessions")
+    child = os.path.join(d, "child.py")
+    with open(child, "w") as f:
+        f.write(SESSION_CHILD)
+    out = []
+    todo = list(enumerate(sessions))
+    while todo:
+        batch, todo = todo[:parallel], todo[parallel:]
+        procs = []
+        for i, sess in batch:
+            steps = session_steps([x["kind"] for x in sess])
+            fn = os.path.join(d, "s%d.json" % i)
+            with open(fn, "w") as f:
+                _json.dump(steps, f)
+            procs.append((sess, steps, subprocess.Popen([sys.executable, child, fn], stdout=subprocess.PIPE, stderr=subprocess.PIPE, text=True, env=dict(os.environ))))
+        for sess, steps, p in procs:
+            try:
+                so, se = p.communicate(timeout=60)
+                m = re.search(r"^RESULT (.*)$", so, re.M)
+                out.append((sess, steps, _json.loads(m.group(1)) if m else "child-failed:" + (se.strip().splitlines() or ["?"])[-1][:80]))
+            except subprocess.TimeoutExpired:
+                p.kill()
+                out.append((sess, steps, "child-timeout"))
+    return out
+
+
 def check(run):
     thorough = run.thorough
     E, cos = build_catalog(run.rng)
@@ -569,12 +640,21 @@ def check(run):
     # ------------------------------------------------------------------ 1. TLC: expected frame lines (Lines.tla)
     inv = ["CatalogOK", "ReportAtFault", "CursorIsPrefixSum"]
     lm_inv0 = ["EveryEmittedLineMapsHome", "PlantedLineEmitted"]
-    res = run.tlc("MC_Lines", cfg_lines(good, raises + hops + warns, tails, maxpre, ["lf", "crlf"], inv), name="mc-frames",
+    # quick tier: every one of the 17 surroundings once before the planted entry, and up to two of the 9 that move lines most;
+    # thorough tier: up to two of all 17 (and three of the 9)
+    res = run.tlc("MC_Lines", cfg_lines(good, raises + hops + warns, tails, maxpre if thorough else 1, ["lf", "crlf"], inv), name="mc-frames",
                   workers=workers, coverage=True, extra_files=files, timeout=1500)
     if res.violated:
         run.spec_violation(res)
         return {"rule": "model violated", "exhaustive": False}
     n_cases = take(res, "rt")
+    if not thorough:
+        res = run.tlc("MC_Lines", cfg_lines(deep, raises + hops + warns, tails, 2, ["lf", "crlf"], inv), name="mc-frames-2", workers=workers,
+                      extra_files=files, timeout=1500)
+        if res.violated:
+            run.spec_violation(res)
+            return {"rule": "model violated", "exhaustive": False}
+        n_cases += take(res, "rt")
     if thorough:
         res = run.tlc("MC_Lines", cfg_lines(deep, raises + hops + warns, tails, 3, ["lf", "crlf"], inv), name="mc-frames-deep",
                       workers=workers, extra_files=files, timeout=2400)
@@ -637,7 +717,8 @@ def check(run):
     # ------------------------------------------------------------------ 2. TLC: the printer's accounting (LineMap.tla)
     lm_inv = ["EveryEmittedLineMapsHome", "PlantedLineEmitted"]
     for hdr in ((17, 31) if thorough else (17,)):
-        res = run.tlc("MC_LineMap", cfg_linemap(good, raises + hops, tails, maxpre, hdr, True, lm_inv), name="mc-linemap-h%d" % hdr,
+        # (quick tier: the 9 surroundings that move lines most; the thorough tier runs all 17)
+        res = run.tlc("MC_LineMap", cfg_linemap(good if thorough else deep, raises + hops, tails, maxpre, hdr, True, lm_inv), name="mc-linemap-h%d" % hdr,
                       workers=workers, coverage=True, extra_files=files, timeout=1500)
         if res.violated:
             run.spec_violation(res, "LineMap.tla: the printer accounting of the intended design maps an emitted line away from its construct")
@@ -671,6 +752,23 @@ def check(run):
     resw = run.tlc("Warn", wcfg % "FALSE", name="mc-warn-witness", workers=2, expect_ok=False)
     if resw.violated != ["ShownExactlyOnce"]:
         raise MachineryError("Warn.tla witness: dropping without forgetting the once-record must violate ShownExactlyOnce (%s)" % resw.violated)
+
+    # sessions of 2-3 compiles in one process: the installed display hook is state (WarnSession.tla)
+    kinds5 = ["ok", "fails-at-lex", "fails-in-module-code", "warns-once", "warns-under-error"]
+    scfg = ("CONSTANTS Kinds = {%s}\n MaxLen = 3\n RestoreInFinally = %%s\nSPECIFICATION Spec\nCHECK_DEADLOCK FALSE\n"
+            "INVARIANT HookRestored\nINVARIANT ShownExactlyOncePerCompile\n" % ", ".join('"%s"' % k for k in kinds5))
+    res = run.tlc("WarnSession", scfg % "TRUE", name="mc-warn-sessions", workers=2, coverage=True)
+    if res.violated:
+        run.spec_violation(res)
+    sessions = {}
+    for j in res.json_lines():
+        if isinstance(j, dict) and "session" in j:
+            sessions.setdefault(tuple(x["kind"] for x in j["session"]), j["session"])
+    if len(sessions) != 150:
+        raise MachineryError("WarnSession.tla exported %d of 150 sessions" % len(sessions))
+    resw = run.tlc("WarnSession", scfg % "FALSE", name="mc-warn-sessions-witness", workers=2, expect_ok=False)
+    if "HookRestored" not in resw.violated:
+        raise MachineryError("WarnSession.tla witness: a hook restored only on success must violate HookRestored (%s)" % resw.violated)
 
     # ------------------------------------------------------------------ 4. R / V on the real code
     byid = {e["id"]: i + 1 for i, e in enumerate(E)}
@@ -735,7 +833,7 @@ def check(run):
         paths = ["plain"]
         key = (fe["id"], c["nl"])
         is_sus = any(E[i - 1]["group"] == "sus" for i in c["seq"]) or c["group"] == "rep"
-        if c["group"] == "rt" and key in seen_paths and hsh(ci, "pl") % 4:
+        if c["group"] == "rt" and key in seen_paths and hsh(ci, "pl") % 2:
             continue        # (sampling the largest instance; every entry x terminator is rendered on all paths once, see below)
         if key not in seen_paths or hsh(ci) % stride == 0:
             seen_paths.add(key)
@@ -1055,6 +1153,32 @@ def check(run):
                 if clause:
                     note("warning:%s:%s:%s" % (fe["id"], action, clause), "path %s: result %s shown %s; expected %s %s" % (p, res, got_shown, want_res, want_shown),
                          {"template": text, "path": p, "action": action, "expected": {"result": want_res, "shown": want_shown}, "observed": {"result": res, "shown": shown}})
+    # ---- sessions of compiles, each in a fresh child process
+    chosen = [sessions[k] for k in sorted(sessions) if len(k) == 2 or thorough or int(hashlib.sha1(("%d:%s" % (run.seed, k)).encode()).hexdigest()[:8], 16) % 3 == 0]
+    n_sess = 0
+    for sess, steps, got in run_sessions(run, chosen):
+        n_sess += 1
+        kinds = [x["kind"] for x in sess]
+        if isinstance(got, str) or len(got) != len(sess):
+            note("warning-session:%s" % (got if isinstance(got, str) else "steps-missing"), "session %s" % kinds, {"session": kinds, "observed": got})
+            continue
+        for n, (x, st, g) in enumerate(zip(sess, steps, got)):
+            want_shown = [[st["uri"], st["home"]]] if x["shown"] == "once-at-home" else []
+            clause = None
+            if g["res"] != x["res"]:
+                clause = "result:" + g["res"]
+            elif not g["restored"]:
+                clause = "showwarning-not-restored"
+            elif g["shown"] != want_shown:
+                clause = "shown-%d-times" % len(g["shown"]) if len(g["shown"]) != len(want_shown) else "wrong-location"
+            if clause:
+                prev = kinds[n - 1] if n else "start"
+                note("warning-session:%s:after-%s:%s" % (x["kind"], prev if clause != "showwarning-not-restored" else "itself", clause),
+                     "session %s, compile %d: %s; expected %s shown %s restored" % (kinds, n + 1, g, x["res"], want_shown),
+                     {"session": kinds, "templates": [s_["text"] for s_ in steps], "observed": got})
+                break
+    run.extra["warning_sessions"] = n_sess
+    n_warn += n_sess
     run.traces += n_render + n_pairs + n_warn
     run.extra.update(renders_compared=n_render, token_pairs_checked=n_pairs, warning_constructions=n_warn, cases=n_cases,
                      catalog={"good": len(good), "raise": len(raises), "hop": len(hops), "warn": len(warns), "cosmetics": cos})
@@ -1100,6 +1224,8 @@ def check(run):
         "layout dimension 'where the frame's line stands': first line, last line with / without a final terminator, single-line template, LF and CRLF - "
         "asserted present on every run; for each of them the html error page is read structurally (sample block: the frame's line present, highlighted when "
         "lines are numbered, every numbered neighbour with the source's text) with and without pygments, and through format_exceptions",
+        "sessions of 2-3 compiles in one fresh child process each (ok / fails at lex / fails in <%! %> code / warns once / warns under the error filter): "
+        "result, shown warnings and the identity of warnings.showwarning after every compile; all 25 two-step and a hashed third of the 125 three-step sessions",
         "path spellings: module_directory absolute+slash / relative / relative+slash / ./ / dir/../dir x template filename or lookup directory "
         "absolute / relative, run with cwd = the world's root, for 7 representative raises and 4 warning entries (frames, error templates, warnings)",
         "also: RichTraceback inside an error_handler, format_exceptions through a lookup, html page with and without pygments (only file, line "
